@@ -32,7 +32,7 @@ PROFILE = dict(
     ns=[(1, 3), (2, 5), (3, 3)],
     bound_pats=[("free", 3), ("lower", 2), ("upper", 2), ("two", 4), ("fixed", 1), ("narrow", 1)],
     obj_kinds=[("quad", 5), ("lin", 3), ("abs", 1), ("rosen", 1), ("noisy", 1), ("none", 4)],
-    max_lin=2, max_nl=2, nl_forms=[("NC", 4), ("dict", 1)], faults=10, maxfev=(3, 45), opt_prob=25,
+    max_lin=2, max_nl=2, nl_forms=[("NC", 4), ("dict", 1)], faults=10, maxfev=(1, 45), opt_prob=25,
     callback_prob=0, scale_prob=30, infeasible_prob=10, debug_prob=5,
 )
 
@@ -55,6 +55,8 @@ def strategy_c09(draw):
         "which": draw(st.integers(0, 50)),
         "exact": draw(st.booleans()),
         "cbform": draw(st.sampled_from(["pos", "kw", "obj_pos", "partial_kw"])),
+        # the evaluation budget ends exactly at the triggering evaluation (the request must win)
+        "tight_budget": draw(st.integers(0, 3)) == 0,
     }
     return {"base": base, "plan": plan}
 
@@ -123,6 +125,7 @@ def run_case(spec):
     if not fun_none and req == "feas":
         req = "target"
     stop_k = None
+    chosen = None
     if req in ("callback", "both"):
         stop_k = k
         real["callback"] = {"form": plan["cbform"], "stop_at": k}
@@ -166,6 +169,16 @@ def run_case(spec):
         else:
             out.label("no-feas-candidate")
     out.label("req:" + req, "pos:" + want)
+    if plan.get("tight_budget"):
+        # maxfev = index of the first evaluation expected to trigger (from the dry run)
+        kk = None
+        if req in ("callback", "both"):
+            kk = stop_k
+        if chosen is not None and req != "callback":
+            kk = chosen[0] if kk is None else min(kk, chosen[0])
+        if kk is not None:
+            real["options"]["maxfev"] = int(kk)
+            out.label("tight-budget")
 
     b, t = e2e.run(enc(real))
     if t.exc is not None:
